@@ -53,4 +53,60 @@ def judgeChk (q a : List String) : Verdict :=
     | _, _, _ => .bad
   | _ => .bad
 
+
+/-- name of the observer of a transition kind as printed by `RecordTrace::replay` ("Path chunk" lines),
+normalised by the check to the enum names. -/
+def labelShort (l : Label) : String := s!"{l.aid}/{l.tc}:{kindName l.kind}"
+
+/-- `path <kind> <pathstring> <program…> => <pid/tc:KIND>…`  (kind: deadlock | assert | end)
+MONFAIL: the reported path is not an execution of the reference LTS, or it does not end in the reported kind of state.
+DISAGREE: accepted, but the transition kinds executed by the real replay differ from the model's labels. -/
+def judgePath (q a : List String) : Verdict :=
+  match q with
+  | kind :: pathS :: prog =>
+    match parseProgram prog, parsePath (if pathS = "-" then "" else pathS) with
+    | some p, some path =>
+      match replay (initState p) path [] with
+      | .error k => .monfail s!"path refused by the reference LTS at chunk {k}"
+      | .ok (s, ls) =>
+        let good :=
+          if kind = "deadlock" then isDeadlock s
+          else if kind = "assert" then s.err == 1 || (allDone s && p.forbid == some (outcome s))
+          else if kind = "end" then allDone s
+          else false
+        if !good then .monfail s!"path accepted but the final state is not a {kind} state (err={s.err} deadlock={isDeadlock s} done={allDone s} outcome={outcome s})"
+        else if a.isEmpty then .ok
+        else cmpAns (ls.map labelShort) a
+    | _, _ => .bad
+  | _ => .bad
+
+
+/-- Main loop shared by the drivers: `ref <cap> <program…>` lines are answered with the reference result (oracle),
+every other line goes to `judge`. -/
+partial def mainLoop (judge : List String → List String → Verdict) (h : IO.FS.Stream) (n : Nat) : IO Nat := do
+  let line ← h.getLine
+  if line.isEmpty then return n
+  let l := line.trimAscii.toString
+  if l.isEmpty then mainLoop judge h n else
+  match splitQA l with
+  | none => IO.println s!"BADLINE {l}"; mainLoop judge h (n+1)
+  | some (q, a) =>
+    match q with
+    | "ref" :: capS :: prog =>
+      match capS.toNat?, parseProgram prog with
+      | some cap, some p => IO.println (refLine (explore p false cap))
+      | _, _ => IO.println s!"BADLINE {l}"
+    | _ =>
+      match judge q a with
+      | .ok => IO.println "ok"
+      | .disagree m => IO.println s!"DISAGREE {" ".intercalate q} => model={m} impl={" ".intercalate a}"
+      | .monfail r => IO.println s!"MONFAIL {" ".intercalate q} => {r}"
+      | .bad => IO.println s!"BADLINE {l}"
+    (← IO.getStdout).flush
+    mainLoop judge h (n+1)
+
+def driverMain (judge : List String → List String → Verdict) : IO Unit := do
+  let n ← mainLoop judge (← IO.getStdin) 0
+  IO.println s!"END {n}"
+
 end SgVerif.McRef
